@@ -347,7 +347,10 @@ def b09_eval(e, env, script):
     k = e[0]
     if k == "num":
         t = e[1]
-        return float(int(t[1:], 16)) if t.startswith("$") else float(t)
+        if t.startswith("$"):                      # a BASIC09 hex literal is a 16-bit INTEGER: $8000..$FFFF are negative
+            v = int(t[1:], 16)
+            return float(v - 0x10000 if 0x8000 <= v <= 0xFFFF else v)
+        return float(t)
     if k == "str":
         return e[1]
     if k == "id":
